@@ -49,7 +49,7 @@ PRESENCE = {"info": ["absent", "present"], "images": ["absent", "current", "lega
             "rpms": ["absent", "current", "legacy", "both"], "modules": ["absent", "present"]}
 KINDS = ["valid", "not-json", "empty", "truncated", "binary", "foreign-type", "bad-compose-type", "wrong-shape"]
 CLASS_FLOORS = {"layouts-0": 3, "layouts-1": 20, "layouts-2": 20, "layouts-3": 10, "compose-preferred": 20, "legacy-name": 20,
-                "both-names": 20, "trailing-slash": 20, "heterogeneous": 10, "missing-file": 50, "accessor-loaded": 100}
+                "both-names": 20, "spelling-relative": 20, "spelling-double-slash": 10, "spelling-dot-segment": 10, "spelling-relative-dotdot": 10, "trailing-slash": 20, "heterogeneous": 10, "missing-file": 50, "accessor-loaded": 100}
 for _k in KINDS:
     CLASS_FLOORS["kind-" + _k] = 10
 
@@ -195,13 +195,32 @@ def materialise(pm, cfg, base, texts):
     return placed
 
 
+SPELLINGS = ["plain", "plain", "relative", "double-slash", "dot-segment", "relative-dotdot", "plain", "relative"]
+
+
 def check_config(ctx, pm, cfg, workdir, texts, counter):
+    """The compose path is spelled absolutely or relative to the working directory (which is then `workdir` for the
+    whole case - accessors open their files lazily)."""
+    cwd = os.getcwd()
+    os.chdir(workdir)
+    try:
+        return _check_config(ctx, pm, cfg, workdir, texts, counter)
+    finally:
+        os.chdir(cwd)
+
+
+def _check_config(ctx, pm, cfg, workdir, texts, counter):
     base = os.path.join(workdir, "c%d" % counter)
     if os.path.exists(base):
         shutil.rmtree(base)
     placed = materialise(pm, cfg, base, texts)
-    path = base + ("/" if cfg["slash"] else "")
-    case = dict(cfg)
+    spelling = cfg.get("spelling") or SPELLINGS[counter % len(SPELLINGS)]
+    path = {"plain": base, "relative": "c%d" % counter, "double-slash": base.replace("/c%d" % counter, "//c%d" % counter),
+            "dot-segment": os.path.join(os.path.dirname(base), ".", "c%d" % counter),
+            "relative-dotdot": os.path.join("c%d" % counter, "..", "c%d" % counter)}[spelling]
+    path = path + ("/" if cfg["slash"] else "")
+    case = dict(cfg, spelling=spelling)
+    ctx.count("spelling-" + spelling)
     ctx.count("layouts-%d" % len(cfg["layouts"]))
     if cfg["slash"]:
         ctx.count("trailing-slash")
@@ -216,7 +235,8 @@ def check_config(ctx, pm, cfg, workdir, texts, counter):
         shutil.rmtree(base, ignore_errors=True)
         return
     # (1) allowed root
-    got_root = os.path.normpath(comp.compose_path)
+    spelled_root = comp.compose_path
+    got_root = os.path.normpath(os.path.abspath(comp.compose_path))
     roots = dict((l, os.path.normpath(root_of(base, l))) for l in cfg["layouts"])
     compose_has_info = "compose" in placed and placed["compose"]["info"]
     if compose_has_info:
@@ -274,7 +294,7 @@ def check_config(ctx, pm, cfg, workdir, texts, counter):
                               sub, observed={"first": outcome, "second": second}, expected="the same outcome twice")
         if not here:
             ctx.count("missing-file")
-            bad = outcome != "RuntimeError" or not names_location(str(exc), got_root, base, [])
+            bad = outcome != "RuntimeError" or not names_location(str(exc), got_root, base, [], spelled_root)
             ctx.monitor("error-is-runtimeerror-naming-location", fired=bad)
             if bad:
                 ctx.violation("error-is-runtimeerror-naming-location", "a missing metadata file surfaces as RuntimeError naming the location",
@@ -333,7 +353,7 @@ def check_config(ctx, pm, cfg, workdir, texts, counter):
                     ctx.violation("error-is-runtimeerror-naming-location", "a decodable file of the wrong shape is not returned as loaded metadata",
                                   sub, observed=outcome, expected="an exception")
             else:
-                bad = outcome != "RuntimeError" or not names_location(str(exc), got_root, base, list(here))
+                bad = outcome != "RuntimeError" or not names_location(str(exc), got_root, base, list(here), spelled_root)
                 ctx.monitor("error-is-runtimeerror-naming-location", fired=bad)
                 if bad:
                     ctx.violation("error-is-runtimeerror-naming-location", "an undecodable or invalid file surfaces as RuntimeError naming the location",
@@ -380,7 +400,9 @@ def check_config(ctx, pm, cfg, workdir, texts, counter):
     shutil.rmtree(base, ignore_errors=True)
 
 
-def names_location(msg, root, base, names):
+def names_location(msg, root, base, names, spelled=None):
+    if spelled and (spelled in msg or spelled.rstrip("/") in msg or os.path.normpath(spelled) in msg):
+        return True
     if root in msg or os.path.normpath(root) in msg or os.path.relpath(root, base) not in (".",) and root.rstrip("/") in msg:
         return True
     if base in msg:
